@@ -306,12 +306,23 @@ var pendingStuck string
 
 // checkLive: every application before the crash must have happened at commit+1.
 func checkLive(o *hx.Out, p params, log []applied, sched string) {
+	bad := 0
 	for _, a := range log {
 		if a.offset != a.before+1 {
 			o.Violation("apply:out-of-offset-order", fmt.Sprintf("%s %s: entry %d was applied (phase %s) while the DB's commit offset was %d; schedule [%s]",
 				p.leg, p.String(), a.offset, a.phase, a.before, sched))
-			return
+			if a.offset > a.before+1 {
+				o.Violation("crash:entry-skipped", fmt.Sprintf("%s %s: the DB holds commit offset %d without the entries %d..%d (a crash at this moment restarts replay at %d); schedule [%s]",
+					p.leg, p.String(), a.offset, a.before+1, a.offset-1, a.offset+1, sched))
+			} else {
+				o.Violation("crash:entry-applied-twice", fmt.Sprintf("%s %s: entry %d was applied on top of a DB at commit offset %d, which takes the stored commit offset back to %d: the entries %d..%d are in the DB and a restart replays them again; schedule [%s]",
+					p.leg, p.String(), a.offset, a.before, a.offset, a.offset+1, a.before, sched))
+			}
+			bad++
 		}
+	}
+	if bad > 0 {
+		return
 	}
 	o.CountN("live-applications-checked", len(log))
 }
